@@ -223,6 +223,8 @@ class Run(object):
                 self.sim.pump()
             elif a == "Ack":
                 self.sim.release()
+            elif a == "Nack":
+                self.sim.release(b"552 Unrecognized reason or unknown id\r\n")
             else:
                 raise ValueError(a)
         except Exception:
